@@ -273,7 +273,7 @@ def stage_reset(stage: int, pre: int) -> str:
 
 # ------------------------------------------------------------------ a stream is the list of its documents
 CORPUS = ['a', '&x 1', '[&x 1, *x]', '%YAML 1.1\n--- 1', '%TAG !e! tag:e,2000:\n--- !e!foo 1', '!e!foo 1', '*x', 'k: &x v\nj: *x', '- x\n- y',
-          "'quoted'", '!!str 1', '']
+          "'quoted'", '!!str 1', '', '[&x 1, *y]', '- &x 1\n- "open']
 
 
 def _canon(node, memo=None):
@@ -328,14 +328,18 @@ def stream(i: int, j: int) -> str:
 
 def after_failure(k: int) -> str:
     """a call that failed half-way leaves the next call unaffected"""
-    bad = ['a: [', '%TAG !e! tag:e,2000:\n--- !e!x [', '&a [*a, *b]', '- &x 1\n- "', '!!python/object:os.system {}', '\x00']
+    bad = ['a: [', '%TAG !e! tag:e,2000:\n--- !e!x [', '&a [*a, *b]', '- &a 1\n- "', '!!python/object:os.system {}', '\x00', '&a {k: &b 1, j: [',
+           '--- &a 1\n--- &b [*a]']
     ref = yaml.safe_load('- &a [1]\n- *a\n- !!str 2\n')
     ref_dump = yaml.safe_dump(ref)
     try:
         yaml.safe_load(pick(k, bad))
     except yaml.YAMLError:
         reach()
-    again = yaml.safe_load('- &a [1]\n- *a\n- !!str 2\n')
+    try:
+        again = yaml.safe_load('- &a [1]\n- *a\n- !!str 2\n')
+    except Exception as e:
+        return fail(P, 'AFTER-FAILURE the next call raises ' + exc_sig(e), k=k)
     if again != ref or again[0] is not again[1] or yaml.safe_dump(again) != ref_dump:
         return fail(P, 'AFTER-FAILURE the next call behaves differently', k=k)
     return 'ok'
@@ -359,5 +363,5 @@ def jobs(tier):
     for i in range(len(CORPUS)):
         js.append(Job('stream/first=%d' % i, stream, [lambda i, j, _i=i: i == _i and 0 <= j < len(CORPUS)], budget=120,
                       bounds='two-document streams: corpus document %d followed by each of %d corpus documents' % (i, len(CORPUS))))
-    js.append(Job('after-failure', after_failure, [lambda k: 0 <= k <= 5], budget=60, bounds='6 failing calls, each followed by a reference call'))
+    js.append(Job('after-failure', after_failure, [lambda k: 0 <= k <= 7], budget=60, bounds='8 failing calls, each followed by a reference call'))
     return js
